@@ -63,7 +63,9 @@ type MongoCollections struct {
 	Dead      bool   // the server process is gone: nothing it still attempts reaches the database
 	Fired     string // name of the command the fault hit
 	FailName  string // fail every command of this name (faults in the post-commit phase, which has its own commands)
-	Trace     []string
+	// FailNameAfterCommit becomes FailName once the next UpdateDatatype (the second write of a commit) has taken effect
+	FailNameAfterCommit string
+	Trace               []string
 }
 
 type RepositoryMongo struct {
@@ -102,6 +104,9 @@ func (its *MongoCollections) begin(ctx iface.OrdaContext, name string) (errors.O
 		return errors.ServerDBQuery.New(ctx.L(), "injected failure of "+name), func() {}
 	}
 	return nil, func() {
+		if name == "UpdateDatatype" && its.FailNameAfterCommit != "" {
+			its.FailName, its.FailNameAfterCommit = its.FailNameAfterCommit, ""
+		}
 		if n == its.FailAt && its.FaultMode == FaultDie {
 			// crash-stop: this command took effect, nothing after it does
 			its.Fired = name
